@@ -179,6 +179,23 @@ class TheCheck(Check):
             self.qpairs = getattr(self, "qpairs", {})
             self.qpairs[qs[-1]] = pairs
         sts.append(Stream("query-roundtrip", qs))
+        # 5b. names and values assembled from the tokens the CURRENT source mentions (string literals and
+        #     character constants of qencode.c): a parser that treats one particular spelling specially
+        #     (an entity, a keyword, an escape) meets it at the start / end / inside of a name and of a
+        #     value, in the first and in later pairs (seed C16-m9)
+        dic = vlib.source_dictionary(["src/utilities/qencode.c"])
+        multi = [t for t in dic if len(t) >= 2 and 0 not in t][:40]
+        single = [t for t in dic if len(t) == 1 and t != b"\x00" and not t.isalnum()]
+        qd = []
+        for t in multi + [a + b for a in single[:6] for b in single[:6]][:20]:
+            for nm, vl in ((t, b"v"), (t + b"lt", t), (b"x" + t, b"a" + t + b"b"), (t + t, b"")):
+                for pos in (0, 1, 2):
+                    pairs = [(b"id", b"7")] * pos + [(nm, vl)] + [(b"z", b"9")]
+                    q = b"&".join(py_urlenc(n_, safe) + b"=" + py_urlenc(v_, safe) for n_, v_ in pairs)
+                    op = "query %s 3d 26" % hexs(q)
+                    self.qpairs[op] = pairs
+                    qd.append(op)
+        sts.append(Stream("query-source-dictionary", qd, note="%d multi-byte tokens from the source" % len(multi)))
         # 6. the same with other separators (every pair from a set incl. '\0', bytes >= 0x80, '%', '+', blank
         #    and equalchar == sepchar): the reference reading is split at sepchar, then at the first
         #    equalchar, trim the name, URL-decode both (py_parse_queries); exact result expected
